@@ -294,7 +294,8 @@ class Contents(object):
                         for fuzzy in (0, 1):
                             yield {'g': g, 'td': td, 'rn': rn, 'rd': rd, 'fuzzy': fuzzy}
         else:
-            for v in ('odd-target', 'missing-target', 'blank-line', 'other-module-only', 'three-columns'):
+            for v in ('odd-target', 'missing-target', 'blank-line', 'other-module-only', 'three-columns', 'undecodable-line', 'bom',
+                      'crlf-lines'):
                 yield {'g': g, 'v': v}
 
     def run_case(self, case):
@@ -366,11 +367,14 @@ class Contents(object):
                      'missing-target': 'FOO-MIB gone.dat\n',
                      'blank-line': 'BAR-MIB bar.txt\n\nFOO-MIB weird_file-name.dat\n',
                      'other-module-only': 'BAR-MIB weird_file-name.dat\n',
-                     'three-columns': 'FOO-MIB weird_file-name.dat extra words here\n'}[v]
-            with open(os.path.join(root, '.index'), 'w') as f:
-                f.write(lines)
+                     'three-columns': 'FOO-MIB weird_file-name.dat extra words here\n',
+                     'undecodable-line': b'BAR-MIB caf\xe9.txt\n\xff\xfe garbage\nFOO-MIB weird_file-name.dat\n',
+                     'bom': b'\xef\xbb\xbfFOO-MIB weird_file-name.dat\n',
+                     'crlf-lines': 'BAR-MIB bar.txt\r\nFOO-MIB weird_file-name.dat\r\n'}[v]
+            with open(os.path.join(root, '.index'), 'wb') as f:
+                f.write(lines if isinstance(lines, bytes) else lines.encode('ascii'))
             got = ask(FileReader(root), 'FOO-MIB')
-            if v in ('odd-target', 'blank-line', 'three-columns'):
+            if v in ('odd-target', 'blank-line', 'three-columns', 'undecodable-line', 'bom', 'crlf-lines'):
                 ok = got[:2] == ('found', 'index target')
             elif v == 'missing-target':
                 ok = got[0] == 'not-found' or got[:2] == ('found', 'regular variant')
